@@ -320,6 +320,10 @@ def oracle_c04(spec, typ, notation, ans, raw):
             k -= 1
         if k <= 0:
             return [("tag_shape", "no auxiliary found in the tag")]
+        if not any(kinds[j] == "V" or (kinds[j] == "Q" and (lemmas[j] == "cannot" or raw[j][2].startswith("[[")))
+                   for j in range(k)):
+            # the only verb of the output is the clause's own: the tag question was silently not produced
+            return [("tag_missing", "int=tag but no tag after the clause: %r" % ans.get("text"))]
         main_end = k
     # ---- contraction: exactly the table, only with contr (the tag is always contracted)
     spec_words = set(x for a in [spec["subj"], spec.get("obj")] + [q["arg"] for q in spec.get("pps", [])] if a
